@@ -513,12 +513,19 @@ def block_diagonalize(
             for i, keep in to_keep.items()
         }
 
+        def symbolic_mask(mask, shape):
+            # A block whose unperturbed part vanishes has a numerical mask (of
+            # shape (1, 1) if it comes from `equal_eigs`) even in a symbolic problem.
+            if isinstance(mask, sympy.MatrixBase):
+                return mask
+            return sympy.Matrix(np.broadcast_to(np.asarray(mask).astype(int), shape))
+
         def diag(x, index):
             x = x[index] if isinstance(x, BlockSeries) else x
             if index[0] not in to_keep:
                 return x
             if isinstance(x, sympy.MatrixBase):
-                return x.multiply_elementwise(to_keep[index[0]])
+                return x.multiply_elementwise(symbolic_mask(to_keep[index[0]], x.shape))
             if sparse.issparse(x):
                 return x.multiply(to_keep[index[0]])
             return x * to_keep[index[0]]
@@ -528,7 +535,9 @@ def block_diagonalize(
                 return zero
             x = x[index] if isinstance(x, BlockSeries) else x
             if isinstance(x, sympy.MatrixBase):
-                return x.multiply_elementwise(to_eliminate[index[0]])
+                return x.multiply_elementwise(
+                    symbolic_mask(to_eliminate[index[0]], x.shape)
+                )
             if sparse.issparse(x):
                 return x.multiply(to_eliminate[index[0]])
             return x * to_eliminate[index[0]]
